@@ -270,7 +270,7 @@ REGISTRY = {
         "assumptions": QUERY_ASSUMPTIONS,
     },
     "C06": {
-        "lean_modules": ["C06"],
+        "lean_modules": ["C06", "C06Pages"],
         "run": mk_query_runner(c06_opts, 600, 12000),
         "rule": "importer-loaded datasets over 1-4 backends x GET requests with 0-3 Sort keys (asc/desc, columns outside Columns, custom-variable keys, the table default order), Limit/Offset in {absent,0,1,small,=total,>total}, json and wrapped_json; "
                 "ties are accepted in any order (tie classes from the sort keys); non-trivial = the specification's window is non-empty and the request has a Sort/Limit/Filter header",
@@ -278,7 +278,7 @@ REGISTRY = {
         "assumptions": QUERY_ASSUMPTIONS,
     },
     "C07": {
-        "lean_modules": ["C07"],
+        "lean_modules": ["C07", "C07Whole"],
         "run": mk_query_runner(c07_opts, 600, 12000, data=True, stats=True),
         "rule": "every generated request text is evaluated in both parse modes (ParseDefault, ParseOptimize) by the implementation and the model and compared with the un-optimised specification; "
                 "half of the leaves have an indexable shape (name/host_name/groups/host_groups/primary key with = =~ ~ ~~ >=); regex texts start/end with .*, are wrapped in ^...$, contain heuristic dots and escapes",
@@ -286,7 +286,7 @@ REGISTRY = {
         "assumptions": QUERY_ASSUMPTIONS,
     },
     "C08": {
-        "lean_modules": ["C08"],
+        "lean_modules": ["C08", "C08Whole"],
         "run": mk_query_runner(c08_opts, 500, 10000, data=True, stats=True),
         "rule": "contact graphs generated as relations over hosts/services/groups, 2x2 authorisation settings, AuthUser on ten contact-bearing tables, data and Stats queries with extra filters",
         "correspondence": "Lmd.checkAuth vs DataRow.checkAuth",
@@ -384,7 +384,7 @@ REGISTRY = {
         "assumptions": ["a sender that waits for a peer in warning/pending state sleeps in real time; such scenarios run in the thorough tier only", "the client closes its write side after the last request"],
     },
     "C16": {
-        "lean_modules": ["C16"],
+        "lean_modules": ["C16", "C16Whole"],
         "run": c16.run,
         "rule": "worlds of 1-3 real peers (up / down / warning / answering log queries with error500, garbage, closing early, bad JSON, truncated) wired to scripted backends holding 0-6 log rows each; "
                 "12-16 generated GET log requests per world: column lists mixing backend columns, peer_key / peer_name, duplicates and unknown columns in any order, 0-3 Sort keys inside or outside the column list "
@@ -395,7 +395,7 @@ REGISTRY = {
                         "group-by keys are strings and small integers (Go's %v float formatting beyond 1e6 is not modelled)"],
     },
     "C20": {
-        "lean_modules": ["C20"],
+        "lean_modules": ["C20", "C20Seq"],
         "run": c20.run,
         "rule": "a daemon started by the real initializeListeners / initializePeers (update loops and unix listeners running) against 1-4 scripted backends; 2-6 reloads per world, each running mainLoop's "
                 "reload sequence with an edited configuration: no-op, add, re-add, remove, rename, point a connection at another backend's socket or at a dead address, reorder, add / remove a listener, two edits at once; "
